@@ -1,4 +1,5 @@
 import FsDb.Proofs.Refine
+import FsDb.Proofs.ConcMain
 /-!
 # C06 — Concurrent operations are individually atomic (linearizable), with no deadlock
 
@@ -12,10 +13,17 @@ What is proved here, and what is tied rather than proved:
   and the acquired-while-holding edges of `usecase/core` are listed in `lockEdges` and checked
   against the order `userTx < mainTx < allStore < leaf`; the functions they are read off are tied by
   their skeleton texts (FsDb/Tie).
-* That each operation's effect *is* atomic in the real code — one critical section per
-  operation's read or write of the version lists, the registry check before, the content fetch
-  after (with the re-lookup of `store.Get`) — is not a theorem: it is checked by enforced
-  schedules on the real database whose answers must be linearizable against `Spec.Iso`.
+* `C06_linearizable` (below, second half of this file): the SMALL-STEP model `Model/Conc` — every
+  operation a sequence of critical sections / Badger accesses / file operations, any number of
+  goroutines, any client programs, any schedule — is linearizable: the state-changing operations in
+  the order of their linearization points form a legal history of the specification, every returned
+  answer is the specification's answer at a point between the call and the return, GetKeys excepted
+  (`C06_getkeys_not_atomic`: the open known finding, as a theorem about the model), and no state is
+  dead-locked (`C06_progress`).
+* What remains checked rather than proved: that the critical sections of the real code are the steps
+  of `Model/Conc` (tied by the skeleton texts and by enforced schedules on the real database whose
+  answers must be linearizable against `Spec.Iso`), and the window between the registry removal and
+  `UpdateTx`/`DeleteTx` inside Commit/Rollback, which the model contracts to one step.
 -/
 namespace FsDb.C06
 open FsDb Spec
@@ -87,5 +95,111 @@ def lockEdges : List (Nat × Nat) :=
 
 /-- every edge goes up in the order `userTx < mainTx < allStore < leaf`: acquisition is ordered -/
 theorem C06_lock_order : ∀ e ∈ lockEdges, e.1 < e.2 := by decide
+
+
+/-! ## linearizability of the small-step model -/
+open FsDb.Conc
+
+/-- **The log is a legal sequential history.**  For EVERY schedule of EVERY client programs (any
+    number of goroutines; `acts` is any list of calls and steps, disabled ones are skipped): the
+    state-changing operations in the order of their linearization points, with the answers logged
+    there, are exactly what the specification answers when it executes them one after the other;
+    and the shared state (with the deletion jobs in execution put back) is related to the
+    specification state by the refinement relation. -/
+theorem C06_log_is_spec_history (acts : List Act) :
+    let σ := exec {} acts
+    (Spec.run {} (linOps σ.lin)).2 = linOuts σ.lin ∧ R (withBusy σ) (Spec.run {} (linOps σ.lin)).1 :=
+  ⟨(reachable_inv acts).outs, (reachable_inv acts).rel⟩
+
+/-- **Every answer is the atomic answer at a point between call and return.**  In every reachable
+    state, when thread `i` is about to return `o` from an operation other than GetKeys: the ghost
+    witness is `o`, it was taken at a log position `witAt` with `invAt ≤ witAt ≤ |log|` (`invAt`:
+    the log length at the call), and
+    * for `Get t k`: `o` is the specification's answer in the state after the first `witAt` log entries;
+    * for Set/Delete/Begin/Commit/Rollback/gc/drain: the log entry at position `witAt - 1 ≥ invAt`
+      is exactly `(i, op, o)` — by `C06_log_is_spec_history` the specification's answer there. -/
+theorem C06_linearizable (acts : List Act) (i : Nat) (o : Out)
+    (hret : ((exec {} acts).thr i).pc = .ret o) (hk : isKeys ((exec {} acts).thr i).op = false) :
+    let σ := exec {} acts
+    let th := σ.thr i
+    th.wit = some o ∧ th.invAt ≤ th.witAt ∧ th.witAt ≤ σ.lin.length ∧ WitSem σ i th o := by
+  intro σ th
+  have h := (reachable_inv acts).thr i
+  have hp := h.pc
+  rw [hret] at hp
+  have hw := hp hk
+  obtain ⟨a, b, c⟩ := h.wit o hw
+  exact ⟨hw, a, b, c⟩
+
+/-- … spelled out for reads -/
+theorem C06_get_linearizable (acts : List Act) (i t : Nat) (k : Key) (o : Out)
+    (hret : ((exec {} acts).thr i).pc = .ret o) (hop : ((exec {} acts).thr i).op = some (.get t k)) :
+    let σ := exec {} acts
+    let th := σ.thr i
+    th.invAt ≤ th.witAt ∧ th.witAt ≤ σ.lin.length ∧ o = Spec.get (specAt σ th.witAt) t k := by
+  intro σ th
+  obtain ⟨_, a, b, c⟩ := C06_linearizable acts i o hret (by rw [hop]; rfl)
+  refine ⟨a, b, ?_⟩
+  have c' : WitSem σ i th o := c
+  unfold WitSem at c'
+  have hop' : th.op = some (.get t k) := hop
+  rw [hop'] at c'
+  exact c'
+
+/-- … and for a state-changing operation: its log entry lies between call and return -/
+theorem C06_write_linearizable (acts : List Act) (i : Nat) (op : Op) (o : Out)
+    (hret : ((exec {} acts).thr i).pc = .ret o) (hop : ((exec {} acts).thr i).op = some op)
+    (hm : notRead op = true) :
+    let σ := exec {} acts
+    let th := σ.thr i
+    th.invAt < th.witAt ∧ th.witAt ≤ σ.lin.length ∧ σ.lin[th.witAt - 1]? = some (i, op, o) := by
+  intro σ th
+  have hk : isKeys ((exec {} acts).thr i).op = false := by
+    rw [hop]; cases op <;> simp_all [isKeys, notRead]
+  obtain ⟨_, _, b, c⟩ := C06_linearizable acts i o hret hk
+  have c' : WitSem σ i th o := c
+  unfold WitSem at c'
+  have hop' : th.op = some op := hop
+  rw [hop'] at c'
+  cases op <;> simp only [notRead] at hm <;> first | exact ⟨c'.1, b, c'.2⟩ | cases hm
+
+/-- **No deadlock.**  The only blocking primitive of the model is the horizon mutex.  In every
+    reachable state a thread that is inside an operation can take a step, or the holder of the
+    horizon mutex can (and that step releases it). -/
+theorem C06_progress (acts : List Act) (i : Nat) (hbusy : ((exec {} acts).thr i).pc ≠ .idle) :
+    (Conc.step (exec {} acts) i).isSome = true ∨
+    ∃ j, (exec {} acts).hzLock = some j ∧ (Conc.step (exec {} acts) j).isSome = true := by
+  exact progress (reachable_inv acts) i hbusy
+
+/-- **GetKeys is not atomic** (the open known finding `C06-getkeys-reclaim-window`, as a theorem
+    about the model): a schedule in which key "k" has a value at every moment, and GetKeys returns
+    the empty list although the atomic answer at its linearization point was ["k"].  Thread 0 writes
+    "k"; thread 1 calls GetKeys and looks the lists up; thread 2 overwrites "k"; thread 3 runs a
+    collector pass that reclaims the version thread 1 found; thread 1 then misses its content record. -/
+def getKeysWitness : List Act :=
+  [.call 0 (.set 0 "k" 1), .run 0, .run 0, .run 0, .run 0,
+   .call 1 (.keys 0), .run 1, .run 1, .run 1,
+   .call 2 (.set 0 "k" 2), .run 2, .run 2, .run 2, .run 2,
+   .call 3 .gc, .run 3, .run 3, .run 3, .run 3, .run 3,
+   .run 1, .run 1]
+
+theorem C06_getkeys_not_atomic :
+    ((exec {} getKeysWitness).thr 1).pc = .ret (.keys []) ∧
+    ((exec {} getKeysWitness).thr 1).wit = some (.keys ["k"]) ∧
+    (exec {} getKeysWitness).sys.get 0 "k" = .val 2 := by
+  decide
+
+/-- non-vacuity: an interleaved schedule in which a reader's lookup is overtaken by an overwrite
+    and a collector pass; the reader misses the content, looks again and returns the new value,
+    which is the specification's answer at its (second) linearization point -/
+example :
+    let acts : List Act :=
+      [.call 0 (.set 0 "k" 1), .run 0, .run 0, .run 0, .run 0,
+       .call 1 (.get 0 "k"), .run 1, .run 1, .run 1,          -- registry, own list, main list: version 1 found
+       .call 2 (.set 0 "k" 2), .run 2, .run 2, .run 2, .run 2,
+       .call 3 .gc, .run 3, .run 3, .run 3, .run 3, .run 3,   -- version 1 collected, its content deleted
+       .run 1, .run 1, .run 1, .run 1]                         -- content missing → look again → version 2
+    ((exec {} acts).thr 1).pc = .ret (.val 2) ∧ ((exec {} acts).thr 1).witAt = 3 ∧ (exec {} acts).lin.length = 3 := by
+  decide
 
 end FsDb.C06
